@@ -311,7 +311,7 @@ Proof.
   assert (Hmul : gmulti (fst late_nr) = false) by (vm_compute; reflexivity).
   destruct (H P9nr late_progs (fst late_nr) (snd late_nr) 1%nat 0%nat (mk_cfg (defs PubSub) reqA KCreate) Hr Hmul Hin) as (x & Hx & Hl & _).
   assert (Hx' : exists y, get_inst (fst late_nr) 0%nat = Some y /\ i_locked y = true) by (eexists; vm_compute; split; reflexivity).
-  destruct Hx' as (y & Hy & Hyl). congruence.
+  destruct Hx' as (y & Hy & Hyl). rewrite Hy in Hx. injection Hx as Exy. rewrite <- Exy in Hl. rewrite Hyl in Hl. discriminate.
 Qed.
 Print Assumptions c06_recheck_refuted.
 
